@@ -86,7 +86,7 @@ package ruleset
 //@ ensures result1 == nil ==> forall x string, j int {reMatch(l[j].Regexp, x)} :: 0 <= j && j < len(l) && !l[j].Exclude && reMatch(l[j].Regexp, x) ==> reMatch(result0.include, x)
 //@ ensures result1 == nil ==> forall x string, j int {reMatch(l[j].Regexp, x)} :: 0 <= j && j < len(l) && l[j].Exclude && reMatch(l[j].Regexp, x) ==> result0.exclude != nil && reMatch(result0.exclude, x)
 //@ ensures result1 == nil ==> forall x string {reMatch(result0.include, x)} :: reMatch(result0.include, x) ==> exists j int :: 0 <= j && j < len(l) && !l[j].Exclude && reMatch(l[j].Regexp, x)
-//@ ensures result1 == nil ==> forall x string {reMatch(result0.exclude, x)} :: result0.exclude != nil && reMatch(result0.exclude, x) ==> exists j int :: 0 <= j && j < len(l) && l[j].Exclude && reMatch(l[j].Regexp, x)
+//@ ensures result1 == nil && result0.exclude != nil ==> forall x string {reMatch(result0.exclude, x)} :: reMatch(result0.exclude, x) ==> exists j int :: 0 <= j && j < len(l) && l[j].Exclude && reMatch(l[j].Regexp, x)
 //@ loop 0:
 //@   ghostset posOf(rangeindex) := ite(l[rangeindex].Exclude, len(exclude) - 1, len(include) - 1)
 //@   ghostset srcInc(ite(l[rangeindex].Exclude, -1, len(include) - 1)) := rangeindex
